@@ -571,6 +571,50 @@ Proof.
   - apply Hsym in Epq. rewrite (D q p) in Epq by lia. discriminate.
 Qed.
 
+
+(* ------------------------------------------------------------------ the writers do not read Vertex::index() *)
+(* A mesh together with the index field of its vertices (Vertex::index(): set by Mesh::generate_indices to the position in
+   vertices(), by Geometry::generate_indices to a geometry-wide number, unset before the first update).  The writers number
+   the vertices by their position in vertices() (MeshIO::VertexIndices): what they write is the same for every content of
+   the index field. *)
+Record imesh := { im_mesh : mesh; im_index : nat -> N }.
+Definition isave_tri (im : imesh) := save_tri C rnd c0 (im_mesh im).
+Definition isave_off (im : imesh) := save_off C rnd c0 (im_mesh im).
+Definition isave_bnd (im : imesh) := save_bnd C rnd c0 (im_mesh im).
+Definition isave_mesh (im : imesh) := save_mesh C rnd c0 (im_mesh im).
+Definition isave_vtk (im : imesh) := save_vtk C rnd c0 (im_mesh im).
+
+Lemma writers_ignore_index (m : mesh) (ix ix' : nat -> N) :
+  isave_tri {| im_mesh := m; im_index := ix |} = isave_tri {| im_mesh := m; im_index := ix' |} /\
+  isave_off {| im_mesh := m; im_index := ix |} = isave_off {| im_mesh := m; im_index := ix' |} /\
+  isave_bnd {| im_mesh := m; im_index := ix |} = isave_bnd {| im_mesh := m; im_index := ix' |} /\
+  isave_mesh {| im_mesh := m; im_index := ix |} = isave_mesh {| im_mesh := m; im_index := ix' |} /\
+  isave_vtk {| im_mesh := m; im_index := ix |} = isave_vtk {| im_mesh := m; im_index := ix' |}.
+Proof. repeat split; reflexivity. Qed.
+
+(* the triangle indices a writer emits are positions in vertices(): below the vertex count, and naming the vertex the
+   triangle uses - whatever the geometry positions (a mesh that shares its geometry with other meshes) *)
+Lemma written_indices_are_positions (m : mesh) lt : wf_mesh m -> local_triangles m = Some lt ->
+  length lt = nt m /\
+  forall k, k < nt m -> forall s, s < 3 ->
+    nth s (tverts (nth k lt (0, 0, 0))) 0 < nv m /\
+    nth (nth s (tverts (nth k lt (0, 0, 0))) 0) (mv m) 0 = nth s (tverts (nth k (tr m) (0, 0, 0))) 0.
+Proof.
+  intros Hwf Hl. rewrite (local_triangles_wf m Hwf) in Hl. injection Hl as <-.
+  split; [apply map_length|]. intros k Hk s Hs.
+  rewrite (nth_indep _ (0, 0, 0) (tri_map (locf (mv m)) (0, 0, 0))) by (rewrite map_length; auto).
+  rewrite map_nth, tverts_map.
+  assert (H3 : length (tverts (nth k (tr m) (0, 0, 0))) = 3) by (destruct (nth k (tr m) (0, 0, 0)) as [[a b] c]; reflexivity).
+  rewrite (nth_indep _ 0 (locf (mv m) 0)) by (rewrite map_length; lia). rewrite map_nth.
+  set (g := nth s (tverts (nth k (tr m) (0, 0, 0))) 0).
+  destruct Hwf as [Hnd Hin].
+  assert (Hg : In g (mv m)).
+  { apply (Hin (nth k (tr m) (0, 0, 0))); [apply nth_In; auto|]. apply nth_In.
+    lia. }
+  destruct (vpos_in (mv m) g Hnd Hg) as [p [Hp [Hn Hv]]].
+  unfold locf. rewrite Hv. split; auto.
+Qed.
+
 (* ------------------------------------------------------------------ VTK writer *)
 Lemma vtk_structure (m : mesh) : wf_mesh m ->
   save_vtk C rnd c0 m =
